@@ -158,7 +158,7 @@ UNIT = {
         ('ws_fields_fit', 'r matches Ok(s) ==> forall|i: int| 0 <= i < size ==> fields(#[trigger] self.entries@[i]).1 < pow256(s.info.w@[1] as nat) '
                           '&& fields(self.entries@[i]).2 < pow256(s.info.w@[2] as nat)'),
         ('ws_types', 'r matches Ok(s) ==> types_ok(s.data@, size as int, 1, s.info.w@[1] as int, s.info.w@[2] as int)'),
-        ('ws_codec', 'r matches Ok(s) ==> section_entries(s.data@, size as int, 1, s.info.w@[1] as int, s.info.w@[2] as int) =~= self.entries@.take(size as int)'),
+        ('ws_codec', 'r matches Ok(s) ==> section_entries(s.data@, size as int, 1, s.info.w@[1] as int, s.info.w@[2] as int) =~= written(self.entries@.take(size as int))'),
      ],
      'loops': {1: {'for_ghost': 'it',
         'invariant': [
@@ -167,7 +167,7 @@ UNIT = {
               'fields(#[trigger] self.entries@[i]).1 < pow256(a_w as nat) && fields(self.entries@[i]).2 < pow256(b_w as nat)'),
            ('ws_len_sofar', 'data@.len() == eoff(it.index@ as int, 1 + a_w + b_w)'),
            'forall|j: int| 0 <= j < it.index@ ==> usable(#[trigger] self.entries@[j])',
-           ('ws_sofar', 'forall|j: int| 0 <= j < it.index@ ==> #[trigger] entry_at(data@, j, 1, a_w as int, b_w as int) == self.entries@[j]'),
+           ('ws_sofar', 'forall|j: int| 0 <= j < it.index@ ==> #[trigger] entry_at(data@, j, 1, a_w as int, b_w as int) == written_as(self.entries@[j])'),
            'forall|j: int| 0 <= j < it.index@ ==> #[trigger] entry_type(data@, j, 1, a_w as int, b_w as int) <= 2',
         ]}},
      'rewrites': [
@@ -189,7 +189,7 @@ UNIT = {
                     'proof { let d3 = data@; if d2.len() == d1.len() + a_w && d3.len() == d2.len() + b_w '
                     '&& be_val(d2.subrange(d1.len() as int, d2.len() as int)) == a as nat && be_val(d3.subrange(d2.len() as int, d3.len() as int)) == b as nat { '
                     'lemma_new_entry(d0, d1, d2, d3, k, t, a as nat, b as nat, a_w as int, b_w as int); '
-                    'assert(entry_at(d3, k, 1, a_w as int, b_w as int) == x); '
+                    'assert(entry_at(d3, k, 1, a_w as int, b_w as int) == written_as(x)); '
                     'assert(entry_type(d3, k, 1, a_w as int, b_w as int) == t); '
                     'assert forall|j: int| 0 <= j < k implies #[trigger] entry_at(d3, j, 1, a_w as int, b_w as int) == entry_at(d0, j, 1, a_w as int, b_w as int) by { '
                     'lemma_prefix_entry(d0, d3, j, k, a_w as int, b_w as int); } '
